@@ -79,7 +79,10 @@ def engine_check(prop, report, tier, seed, n_quick=160, n_thorough=6000, extra=N
 
 def check_C01(report, tier, seed): engine_check("C01", report, tier, seed)
 def check_C04(report, tier, seed): engine_check("C04", report, tier, seed)
-def check_C05(report, tier, seed): engine_check("C05", report, tier, seed)
+def check_C05(report, tier, seed):
+    engine_check("C05", report, tier, seed)
+    import suites_client as SC
+    SC.suite_client_inbound(report, tier, seed, "C05")
 def check_C06(report, tier, seed): engine_check("C06", report, tier, seed)
 def check_C07(report, tier, seed): engine_check("C07", report, tier, seed)
 def check_C09(report, tier, seed): engine_check("C09", report, tier, seed)
